@@ -62,7 +62,28 @@ def p_never(x):
 PREDS = {f.__name__: f for f in (p_pos_int, p_is_str, p_truthy, p_sized2, p_always, p_never)}
 TYPES = ['int', 'str', 'bool', 'float', 'VBase', 'VDerived', 'VOther']
 ATTRS = ['a', 'b', 'a_isattr_b', 'isattr', 'a_b']
-CONSTS = [['i', 0], ['i', 1], ['i', 3], ['s', 'a'], ['s', ''], ['n'], ['b', True], ['b', False], ['f', 1.0]]
+CONSTS = [['i', 0], ['i', 1], ['i', 3], ['s', 'a'], ['s', ''], ['n'], ['b', True], ['b', False], ['f', 1.0],
+          # singletons that are not equal to themselves: the same object serves as IsEqual operand and as checked object, so an
+          # identity shortcut in place of == shows
+          ['nan'], ['neq']]
+
+
+class NeverEqual:
+    def __eq__(self, other):
+        return False
+
+    def __ne__(self, other):
+        return True
+
+    def __hash__(self):
+        return 11
+
+    def __repr__(self):
+        return 'NEVER_EQ'
+
+
+NAN = float('nan')
+NEVER_EQ = NeverEqual()
 
 
 class Bag:
@@ -80,12 +101,22 @@ class Bag:
 def const(c):
     if c[0] == 'f':
         return float(c[1])
+    if c[0] == 'nan':
+        return NAN
+    if c[0] == 'neq':
+        return NEVER_EQ
     return H.lit_value(c)
 
 
 def realize(v):
     if v[0] == 'bag':
         return Bag([(k, realize(x)) for k, x in v[1]])
+    if v[0] == 'nan':
+        return NAN
+    if v[0] == 'neq':
+        return NEVER_EQ
+    if v[0] == 'nan2':
+        return float('nan')
     return H.realize(v)
 
 
